@@ -151,12 +151,18 @@ func (s *state) walk(node ast.Node) {
 	case *ast.CallNode:
 		s.visitCall(node)
 	case *ast.LetValueNode:
-		s.jsln("var ", s.scope.makevar(node.Name), " = ", node.Expr, ";")
+		// the value is translated before the name is bound: it may refer to
+		// an outer variable of the same name
+		var value = s.block(node.Expr)
+		s.jsln("var ", s.scope.makevar(node.Name), " = ", value, ";")
 	case *ast.LetContentNode:
+		// the name is bound after the body: the body may refer to an outer
+		// variable of the same name
 		var oldBufferName = s.bufferName
-		s.bufferName = s.scope.makevar(node.Name)
+		s.bufferName = s.scope.genname(node.Name)
 		s.jsln("var ", s.bufferName, " = '';")
 		s.walk(node.Body)
+		s.scope.bind(node.Name, s.bufferName)
 		s.bufferName = oldBufferName
 
 	// Values ----------
@@ -543,30 +549,33 @@ func (s *state) visitForRange(node *ast.ForNode) {
 
 	// The loop runs over an index, as a {foreach} over the list range() returns
 	// would, so that index(), isFirst(), isLast() and {ifempty} mean the same.
+	// The arguments (like the list of a foreach and the ifempty block) are
+	// outside the scope of the loop variable.
+	var initExpr, stepExpr, limitExpr = s.block(init), s.block(increment), s.block(limit)
 	var itemData,
 		itemInit,
 		itemStep,
 		itemCount,
 		itemIndex = s.scope.pushForRange(node.Var)
-	defer s.scope.pop()
-	s.jsln("var ", itemInit, " = ", init, ";")
-	s.jsln("var ", itemStep, " = ", increment, ";")
-	s.jsln("var ", itemCount, " = Math.max(0, Math.ceil((", limit, " - ", itemInit, ") / ", itemStep, "));")
+	s.jsln("var ", itemInit, " = ", initExpr, ";")
+	s.jsln("var ", itemStep, " = ", stepExpr, ";")
+	s.jsln("var ", itemCount, " = Math.max(0, Math.ceil((", limitExpr, " - ", itemInit, ") / ", itemStep, "));")
 	s.visitLoop(node, itemData, itemInit+" + "+itemIndex+" * "+itemStep, itemCount, itemIndex)
 }
 
 func (s *state) visitForeach(node *ast.ForNode) {
+	var listExpr = s.block(node.List)
 	var itemData,
 		itemList,
 		itemListLen,
 		itemIndex = s.scope.pushForEach(node.Var)
-	defer s.scope.pop()
-	s.jsln("var ", itemList, " = ", node.List, ";")
+	s.jsln("var ", itemList, " = ", listExpr, ";")
 	s.jsln("var ", itemListLen, " = ", itemList, ".length;")
 	s.visitLoop(node, itemData, itemList+"["+itemIndex+"]", itemListLen, itemIndex)
 }
 
-// visitLoop writes the loop over itemIndex < itemCount whose item is itemExpr.
+// visitLoop writes the loop over itemIndex < itemCount whose item is itemExpr,
+// and leaves the scope of the loop variable (pushed by the caller).
 func (s *state) visitLoop(node *ast.ForNode, itemData, itemExpr, itemListLen, itemIndex string) {
 	if node.IfEmpty != nil {
 		s.jsln("if (", itemListLen, " > 0) {")
@@ -578,6 +587,7 @@ func (s *state) visitLoop(node *ast.ForNode, itemData, itemExpr, itemListLen, it
 	s.walk(node.Body)
 	s.indentLevels--
 	s.jsln("}")
+	s.scope.pop()
 	if node.IfEmpty != nil {
 		s.indentLevels--
 		s.jsln("} else {")
